@@ -9,6 +9,10 @@ correspondence (model vs implementation, canonical observables only):
     file object at every kind of position, binary file object: result or exception class, stream position afterwards,
   * `getEncodingInfo` on the FULL cross product media type x transport charset x XML part x meta part x text/bytes
     (every field of EncodingInfo), and on generated (response stub, document) pairs incl. raw message stubs.
+  * wave 3: every getEncodingInfo case travels with the kind of its document (str / bytes) and with the start tags that a
+    recorder in front of the code's own _MetaHTMLParser.handle_starttag saw (ops infod, meta); generated attribute lists
+    straight into the callback; documents for the meta stage; text vs encoded bytes; tryEncodings without chardet (op try);
+    the Lean strict XMLDecl reader against the oracle's strict parser (op strict).
 oracle (implementation only, independent spec in c20_spec.py): documented classification and defaults; BOM / strict
   XML 1.0 declaration / UTF-8; position restored; the documented first-match table; lower-case; mismatch iff.
 Each case is a JSON-able "witness" dict; streams only build witnesses, `process` evaluates them (also used by
@@ -208,23 +212,30 @@ class C20(Check):
     driver_exe = 'drv_c20'
     sources = ('encutils/__init__.py',)
     trusted_base = (
-        'hand-written model lean/CssVerif/Model/Encutils.lean of _getTextTypeByMediaType / _getTextType / '
-        'encodingByMediaType / detectXMLEncoding / getEncodingInfo (+ tails of getHTTPInfo, getMetaInfo), tied to '
-        'encutils/__init__.py by the correspondence of this run (full cross-product table, generated documents)',
+        'hand-written models lean/CssVerif/Model/Encutils.lean (_getTextTypeByMediaType / _getTextType / encodingByMediaType / '
+        'detectXMLEncoding / getEncodingInfo, tails of getHTTPInfo and getMetaInfo), Model/EncutilsDoc.lean (the bytes guards, '
+        '_MetaHTMLParser.handle_starttag over the reported start tags, front of getMetaInfo, getEncodingInfo on str/bytes '
+        'documents, EncodingInfo.__str__) and Model/EncutilsTry.lean (tryEncodings without chardet), tied to '
+        'encutils/__init__.py by the correspondence of this run (full cross-product table, generated documents, start tags '
+        'recorded in front of the code\'s own callback, generated attribute lists, byte strings)',
         'translator tools/gen/c20_tables.py (ast): constants, the if/elif ladder, lists, regexes (through '
-        'tools/gen/relib.py into Re terms), bomDict, defaultencodings, read sizes',
-        'not modelled, inputs of the model: email.message.Message (header and parameter parsing), '
-        'email.utils.collapse_rfc2231_value, '
-        'html.parser.HTMLParser (+ the 6-line _MetaHTMLParser callback), io.StringIO/BytesIO seek/tell/read, '
-        'tryEncodings (proved unreachable for the generated defaults table), the log, the url= parameter',
+        'tools/gen/relib.py into Re terms), bomDict, defaultencodings, read sizes, the shape and literals of '
+        '_MetaHTMLParser, the codec of the five bytes guards, the tuple and literals of tryEncodings',
+        'not modelled, inputs of the model (arbitrary functions in the theorems): html.parser.HTMLParser (document -> start '
+        'tags), email.message.Message with email.utils.collapse_rfc2231_value (content string -> media type, charset '
+        'parameter); io.StringIO/BytesIO seek/tell/read; which bytes the codecs ascii / iso-8859-1 / windows-1252 accept '
+        '(typed by hand, checked on every byte each run); UTF-8 validity; the log; the url= parameter',
         'sre-faithfulness of Re.ms for the three regexes (validated each run by the correspondence on generated '
         'declarations; group spans cross-checked by the translator against CPython re)',
+        'spec side typed by hand: documented table, XML 1.0 XMLDecl grammar (its executable reader is compared with the '
+        'oracle\'s independent strict parser each run), first-deciding-meta rule, AsciiTransparent',
     )
     assumptions = (
         'str.lower() = ASCII + Latin-1 lower-casing and str.strip() = the Py_UNICODE_ISSPACE set on the generated '
         'alphabets (checked on every code point < 256 and on the generator alphabets each run; cased letters '
         'outside Latin-1 are not generated where the code lower-cases)',
-        'bytes documents are compared through their latin-1 decoding (what the code does)',
+        'bytes documents travel as bytes to the model (kind B) and are decoded as latin-1 there, as the code does',
+        'tryEncodings is exercised only when chardet is not importable (the branch the model covers)',
     )
     rule = ('table: FULL product 18 transport kinds (16 media types, no Content-Type header, no response) x '
             '3 transport charsets x 11 XML parts (none / declaration without, with 3 encodings / 5 BOMs / BOM+declaration) '
@@ -232,9 +243,13 @@ class C20(Check):
             'choices (white space kinds, quotes, spaces around =, standalone, stray encoding attributes, other PI '
             'targets), malformed stream (truncation at every offset, deletions, case changes), boundary stream '
             '(lengths 0..6, every BOM prefix, the 2048 read limit), each as str / bytes / text file at a position / '
-            'binary file; classification: block product of prefixes x main types x subtypes x suffixes + random. '
-            'non-trivial = distinct witness in which at least one source is present (media type classifies as non-other, '
-            'or the document carries a BOM, a declaration or a meta element)')
+            'binary file, each str document also through the strict reader; classification: block product of prefixes x '
+            'main types x subtypes x suffixes + random; meta stage: documents with 1-4 <meta>-like elements in odd spellings '
+            'and places, and attribute lists straight into handle_starttag; text vs its bytes in utf-8 / latin-1 / cp1252 '
+            '(ASCII documents, ASCII head of 2048 characters, early non-ASCII); tryEncodings: every byte, pairs of 17 bytes, '
+            'random byte strings. non-trivial = distinct witness in which at least one source is present (media type '
+            'classifies as non-other, or the document carries a BOM, a declaration or a meta element; a meta start tag '
+            'with attributes; non-ASCII bytes)')
 
     def translate(self, ctx):
         from gen import c20_tables
